@@ -36,6 +36,8 @@ const (
 	c17FWrapAppend = "C17-autowrap-append"      // [N>=1] on a non-array that is the root or an array element: Set/Insert are silent no-ops
 	c17FEmptyArray = "C17-empty-array-index"    // Set/Insert at an index of an empty array: panic (root) or silent no-op (nested)
 	c17FMissingIdx = "C17-missing-parent-index" // Set/Insert through a missing location followed by an index leg: internal error
+	c17FArrayEdge  = "C17-chunk-ends-before-first-element" // a leaf chunk ending right after '[' (boundary key = start of element 0): every access to that element panics
+	c17FStaleKeys  = "C17-stale-index-keys" // Insert/Remove of an array element: following chunks are reused with their old (now shifted) index keys
 	c17FRemoveEdge = "C17-remove-first-at-chunk-end" // Remove of the first element/member whose value ends at a chunk boundary leaves the comma: invalid JSON
 )
 
@@ -208,6 +210,43 @@ func c17ShapeOf(doc interface{}, legs []verifJLeg) c17Shape {
 		sh.firstOfMany = false
 	}
 	return sh
+}
+
+// c17ArrayEdges returns the locations (key bytes without the state byte) of first array elements
+// that start exactly at a leaf chunk boundary of the stored document.
+func c17ArrayEdges(ctx *sql.Context, d IndexedJsonDocument) [][]byte {
+	if d.m.Root.Level() == 0 {
+		return nil
+	}
+	var out [][]byte
+	_ = d.m.WalkNodes(ctx, func(ctx context.Context, n *Node) error {
+		if n.Level() == 1 {
+			for i := 0; i < n.Count(); i++ {
+				k := n.GetKey(i)
+				if len(k) >= 3 && jsonPathType(k[0]) == startOfValue && k[len(k)-2] == beginArrayKey && k[len(k)-1] == 0 {
+					out = append(out, bytes.Clone(k[1:]))
+				}
+			}
+		}
+		return nil
+	})
+	return out
+}
+
+func c17PassesEdge(edges [][]byte, path string) bool {
+	if len(edges) == 0 {
+		return false
+	}
+	loc, err := jsonPathElementsFromMySQLJsonPath([]byte(path))
+	if err != nil {
+		return false // the stored implementation rejects the path or falls back: no cursor involved
+	}
+	for _, e := range edges {
+		if bytes.HasPrefix(loc.key[1:], e) {
+			return true
+		}
+	}
+	return false
 }
 
 // c17EndsAtChunkBoundary reports whether the value at |path| ends exactly where a leaf chunk of
@@ -526,6 +565,17 @@ func c17Apply(ctx *sql.Context, ns NodeStore, sIdx IndexedJsonDocument, cur inte
 		if string(b) != string(want) {
 			return cur, sIdx, false, mm("text", "stored result is JSON-equal but not the normalized text\n stored %s\n want   %s", verifJShort(b), verifJShort(want))
 		}
+		if bad := verifJCheckIndex(ctx, ns, idx.m.Root, true); bad != "" {
+			if !c17Excluded(c17FStaleKeys) {
+				return cur, sIdx, false, mm("index", "the stored result has the right text but its chunk index does not describe it (later lookups and edits of this document seek by these keys): %s", bad)
+			}
+			// known finding: carry on with a freshly stored copy of the same value
+			classes["excluded:"+c17FStaleKeys] = true
+			var err error
+			if idx, err = verifJStore(ctx, ns, mv); err != nil {
+				return cur, sIdx, false, mm("decode", "re-storing the result: %v", err)
+			}
+		}
 		sIdx = idx
 		classes["indexed_result"] = true
 	} else {
@@ -544,6 +594,36 @@ func c17Apply(ctx *sql.Context, ns NodeStore, sIdx IndexedJsonDocument, cur inte
 		classes["noop:"+kind] = true
 	}
 	return mv, sIdx, sCh, nil
+}
+
+// c17CompareDocs compares stored.Compare with CompareJSON of the in-memory values, for a stored,
+// an in-memory and a raw right-hand side.
+func c17CompareDocs(ctx *sql.Context, stored, lastStored IndexedJsonDocument, doc, cur interface{}) *c17Mismatch {
+	gen := func(what, format string, a ...any) *c17Mismatch {
+		return &c17Mismatch{what: what, op: "-", traits: "-", msg: fmt.Sprintf(format, a...)}
+	}
+	last := types.JSONDocument{Val: types.DeepCopyJson(cur)}
+	wantCmp, err := types.CompareJSON(ctx, types.DeepCopyJson(doc), last.Val)
+	if err != nil {
+		return gen("compare", "CompareJSON(model): %v", err)
+	}
+	for _, c := range []struct {
+		name  string
+		other interface{}
+	}{{"stored-vs-stored", lastStored}, {"stored-vs-memory", last}, {"stored-vs-raw-value", last.Val}} {
+		var gotCmp int
+		var err error
+		if p := c17Recover(func() { gotCmp, err = stored.Compare(ctx, c.other) }); p != "" {
+			return gen("compare-panic:"+c.name, "Compare %s panicked: %s\n first %s\n last  %s", c.name, p, verifJShort(verifJMarshal(doc)), verifJShort(verifJMarshal(cur)))
+		}
+		if err != nil {
+			return gen("compare-error:"+c.name, "Compare %s: %v\n first %s\n last  %s", c.name, err, verifJShort(verifJMarshal(doc)), verifJShort(verifJMarshal(cur)))
+		}
+		if (gotCmp == 0) != (wantCmp == 0) || (gotCmp < 0) != (wantCmp < 0) {
+			return gen("compare:"+c.name, "Compare %s: stored says %d, in-memory CompareJSON says %d\n first %s\n last  %s", c.name, gotCmp, wantCmp, verifJShort(verifJMarshal(doc)), verifJShort(verifJMarshal(cur)))
+		}
+	}
+	return nil
 }
 
 type c17CaseFile struct {
@@ -591,6 +671,12 @@ func c17Case(rt *rapid.T, rec *vh.Recorder) (*c17Mismatch, *c17CaseFile) {
 			f = c17FRemoveEdge
 			existing = nil // Remove($) is an error in both implementations
 		}
+		if c17Excluded(c17FArrayEdge) {
+			if edges := c17ArrayEdges(ctx, sIdx); c17PassesEdge(edges, verifJRenderPath(legs)) || (f != "" && c17PassesEdge(edges, verifJRenderPath(existing))) {
+				f = c17FArrayEdge
+				existing = nil
+			}
+		}
 		if f != "" {
 			// reproduces an open finding: use the plain existing location instead
 			classes["excluded:"+f] = true
@@ -623,23 +709,11 @@ func c17Case(rt *rapid.T, rec *vh.Recorder) (*c17Mismatch, *c17CaseFile) {
 	}
 
 	// Compare / JsonType of first and last document
-	last := types.JSONDocument{Val: types.DeepCopyJson(cur)}
-	wantCmp, err := types.CompareJSON(ctx, types.DeepCopyJson(doc), last.Val)
-	if err != nil {
-		return gen("compare", "CompareJSON(model): %v", err), cf
+	if m := c17CompareDocs(ctx, stored, sIdx, doc, cur); m != nil {
+		m.msg += fmt.Sprintf(" (ops %v)", ops)
+		return m, cf
 	}
-	for _, c := range []struct {
-		name  string
-		other interface{}
-	}{{"stored-vs-stored", sIdx}, {"stored-vs-memory", last}, {"stored-vs-raw-value", last.Val}} {
-		gotCmp, err := stored.Compare(ctx, c.other)
-		if err != nil {
-			return gen("compare", "Compare %s: %v (ops %v)", c.name, err, ops), cf
-		}
-		if (gotCmp == 0) != (wantCmp == 0) || (gotCmp < 0) != (wantCmp < 0) {
-			return gen("compare:"+c.name, "Compare %s: stored says %d, in-memory CompareJSON says %d\n first %s\n last  %s", c.name, gotCmp, wantCmp, verifJShort(docBytes), verifJShort(verifJMarshal(cur))), cf
-		}
-	}
+	wantCmp, _ := types.CompareJSON(ctx, types.DeepCopyJson(doc), types.DeepCopyJson(cur))
 	if wantCmp != 0 {
 		classes["compare_unequal"] = true
 	}
@@ -677,7 +751,7 @@ func c17Case(rt *rapid.T, rec *vh.Recorder) (*c17Mismatch, *c17CaseFile) {
 }
 
 // c17RunFile replays a (document, operations) case without shape knowledge: everything is compared.
-func c17RunFile(cf *c17CaseFile) *c17Mismatch {
+func c17RunFile(cf *c17CaseFile) (m *c17Mismatch) {
 	ctx := sql.NewEmptyContext()
 	ns := NewTestNodeStore()
 	var doc interface{}
@@ -689,10 +763,42 @@ func c17RunFile(cf *c17CaseFile) *c17Mismatch {
 		return &c17Mismatch{what: "store", msg: err.Error()}
 	}
 	cur := doc
+	first := sIdx
+	defer func() {
+		if m == nil {
+			m = c17CompareDocs(ctx, first, sIdx, doc, cur)
+		}
+	}()
 	for _, op := range cf.Ops {
-		var m *c17Mismatch
+		before := cur
 		cur, sIdx, _, m = c17Apply(ctx, ns, sIdx, cur, op, c17Shape{}, map[string]bool{})
+		if m == nil && os.Getenv("VERIF_C17_CANON") != "" {
+			fresh, _ := verifJStore(ctx, ns, cur)
+			fmt.Printf("after %s: canonical=%v level=%d/%d\n", op, fresh.m.Root.HashOf() == sIdx.m.Root.HashOf(), sIdx.m.Root.Level(), fresh.m.Root.Level())
+			if fresh.m.Root.HashOf() != sIdx.m.Root.HashOf() {
+				dump := func(name string, d IndexedJsonDocument) {
+					_ = d.m.WalkNodes(ctx, func(ctx context.Context, n *Node) error {
+						if n.Level() >= 1 {
+							for i := 0; i < n.Count(); i++ {
+								k := n.GetKey(i)
+								fmt.Printf("   %s level %d key %d: state=%d path=%s\n", name, n.Level(), i, k[0], MySqlJsonPathFromKey(k))
+							}
+						} else {
+							v := n.GetValue(0)
+							fmt.Printf("   %s   leaf %d bytes: %s\n", name, len(v), verifJShort(v))
+						}
+						return nil
+					})
+				}
+				dump("mutated", sIdx)
+				dump("fresh  ", fresh)
+			}
+		}
 		if m != nil {
+			if out := os.Getenv("VERIF_C17_FLATTEN"); out != "" {
+				b, _ := json.Marshal(&c17CaseFile{Doc: verifJMarshal(before), Ops: []c17Op{op}})
+				_ = os.WriteFile(out, b, 0o644)
+			}
 			return m
 		}
 	}
